@@ -690,6 +690,7 @@ pub fn parts() -> Vec<Box<dyn PartDyn>> {
         shrink_budget: 150,
         confirm_runs: 2,
             fuzz: None,
+            watchdog_s: 60,
     })]
 }
 
@@ -747,6 +748,7 @@ pub fn parts_c01() -> Vec<Box<dyn PartDyn>> {
         shrink_budget: 150,
         confirm_runs: 2,
             fuzz: None,
+            watchdog_s: 60,
     })]
 }
 
@@ -762,5 +764,6 @@ pub fn parts_c09() -> Vec<Box<dyn PartDyn>> {
         shrink_budget: 150,
         confirm_runs: 2,
             fuzz: None,
+            watchdog_s: 60,
     })]
 }
